@@ -814,6 +814,179 @@ def _run(ctx):
                           % (q0, q1, float(exact)), {"n": n + 1, "a": a0, "b": b0})
         ctx.count("optargs:equi/quadrect-defaults")
 
+    # ---- 4c. call HISTORIES: the same arguments through several routines in one process, in random order.
+    # Every result is judged by the exact moment oracle when it is returned and again at the end of the
+    # history; returned arrays must stay bitwise unchanged, must not share memory with each other or with
+    # the inputs, and a caller's in-place modification of a result must not leak into a later call.
+    def run_history(hist_id):
+        d = 1 if rng.random() < 0.7 else 2
+        n0 = rng.randint(2, 7)
+        while True:
+            ivs = [interval(rng) for _ in range(d)]
+            if all(i[1] - i[0] != 1 for i in ivs):
+                break
+        fa, fb = [float(i[0]) for i in ivs], [float(i[1]) for i in ivs]
+        A, B = [F(t) for t in fa], [F(t) for t in fb]
+        pa, pb = float(shape_par(rng)), float(shape_par(rng))
+        mu1, s1 = float(dy(rng, -3, 3, 8)), float(dy(rng, 0.25, 4, 8))
+        if d == 1:
+            n_arg = lambda: n0
+            a_arg = lambda: fa[0]
+            b_arg = lambda: fb[0]
+        else:
+            n_keep, a_keep, b_keep = np.array([n0] * d), np.array(fa), np.array(fb)
+            n_arg = lambda: n_keep
+            a_arg = lambda: a_keep
+            b_arg = lambda: b_keep
+        inputs = [] if d == 1 else [n_keep, a_keep, b_keep]
+        vol = Fraction(1)
+        for k in range(d):
+            vol *= B[k] - A[k]
+
+        def judge(kind, out):
+            """exact oracle for one result; returns None or a description of what is wrong"""
+            if kind.startswith("quadrect"):
+                # integrand 1 + x_0: integral = vol * (1 + midpoint_0)
+                exact = vol * (1 + (A[0] + B[0]) / 2)
+                if abs(F(out) - exact) > Fraction(1, 10 ** 10) * (abs(exact) + abs(vol)):
+                    return "%s(1 + x0) = %r, exact integral %r" % (kind, float(out), float(exact))
+                return None
+            x, w = out
+            x = np.asarray(x, dtype=float)
+            w = np.atleast_1d(np.asarray(w, dtype=float))
+            X = x.reshape(len(w), -1)
+            tot = sum(F(t) for t in w)
+            if kind in ("lege", "trap", "simp", "cheb"):
+                mass, rule = vol, kind
+            else:
+                mass, rule = Fraction(1), {"unif": "unif", "beta": "beta", "gamma": "gamma"}.get(kind, "norm")
+            tol = TOL[rule] * 10
+            if abs(tot - mass) > tol * abs(mass):
+                return "%s: the weights sum to %r, total mass is %r" % (kind, float(tot), float(mass))
+            if not np.all(w > 0):
+                return "%s: a weight is not positive" % kind
+            # first moment of coordinate 0
+            m1 = sum(F(wi) * F(xi) for wi, xi in zip(w, X[:, 0]))
+            if kind in ("lege", "trap", "simp", "cheb", "unif"):
+                want = mass * (A[0] + B[0]) / 2
+                scale = abs(mass) * (abs(A[0]) + abs(B[0]) + 1)
+            elif kind == "beta":
+                want, scale = Fraction(pa) / (Fraction(pa) + Fraction(pb)), 1
+            elif kind == "gamma":
+                want, scale = Fraction(pa) * Fraction(pb), Fraction(pa) * Fraction(pb) + 1
+            elif kind == "norm0":
+                want, scale = Fraction(0), Fraction(n0)
+            elif kind == "norm":
+                want, scale = Fraction(mu1), abs(Fraction(mu1)) + 4
+            else:    # logn: judge the logarithm of the nodes
+                m1 = sum(F(wi) * F(math.log(xi)) for wi, xi in zip(w, X[:, 0]))
+                want, scale = Fraction(mu1), abs(Fraction(mu1)) + 4
+            if abs(m1 - want) > max(tol, Fraction(1, 10 ** 9)) * scale:
+                return "%s: first moment %r, exact %r" % (kind, float(m1), float(want))
+            if d == 1 and kind in ("lege", "unif") and n0 >= 2:
+                m2 = sum(F(wi) * F(xi) ** 2 for wi, xi in zip(w, X[:, 0]))
+                want2 = mass * (B[0] ** 3 - A[0] ** 3) / 3 / (B[0] - A[0])
+                if abs(m2 - want2) > tol * (abs(want2) + 1):
+                    return "%s: second moment %r, exact %r" % (kind, float(m2), float(want2))
+            return None
+
+        g = lambda xv: 1.0 + np.asarray(xv, dtype=float).reshape(-1, d)[:, 0]
+        calls = {
+            "unif": lambda: Q.qnwunif(n_arg(), a_arg(), b_arg()),
+            "lege": lambda: Q.qnwlege(n_arg(), a_arg(), b_arg()),
+            "trap": lambda: Q.qnwtrap(n_arg(), a_arg(), b_arg()),
+            "simp": lambda: Q.qnwsimp(n_arg(), a_arg(), b_arg()),
+            "cheb": lambda: Q.qnwcheb(n_arg(), a_arg(), b_arg()),
+            "quadrect-lege": lambda: Q.quadrect(g, n_arg(), a_arg(), b_arg(), "lege"),
+            "quadrect-trap": lambda: Q.quadrect(g, n_arg(), a_arg(), b_arg(), "trap"),
+            "quadrect-default": lambda: Q.quadrect(g, n_arg(), a_arg(), b_arg()),
+        }
+        if d == 1:
+            calls.update({
+                "beta": lambda: Q.qnwbeta(n0, pa, pb),
+                "gamma": lambda: Q.qnwgamma(n0, pa, pb),
+                "norm0": lambda: Q.qnwnorm(n0),
+                "norm": lambda: Q.qnwnorm(n0, mu1, s1),
+                "logn": lambda: Q.qnwlogn(n0, mu1, s1),
+            })
+            if n0 == 3 and pb < 0.25 and pa > 6:
+                calls.pop("beta")
+        names = sorted(calls)
+        seq = [rng.choice(names) for _ in range(rng.randint(6, 12))]
+        # make sure the interesting pairs occur in both orders over the histories
+        lead = [("unif", "lege"), ("lege", "unif"), ("unif", "quadrect-lege"), ("trap", "quadrect-trap"),
+                ("lege", "lege"), ("unif", "unif")][hist_id % 6]
+        seq = list(lead) + seq
+        kept = []          # (step, kind, array, pristine bytes, mutated?)
+        history = []
+
+        def replay(step, extra=None):
+            r = {"op": "history", "d": d, "n": n0, "a": fa if d > 1 else fa[0], "b": fb if d > 1 else fb[0],
+                 "beta_gamma_params": [pa, pb], "mu_sig2": [mu1, s1], "calls": list(history), "failing_step": step}
+            if extra:
+                r.update(extra)
+            return r
+
+        first_result = {}
+        for step, kind in enumerate(seq):
+            mutate = rng.random() < 0.25 and not kind.startswith("quadrect")
+            history.append(kind + ("  (then the caller does x += 1; w *= 2 on the returned arrays)" if mutate else ""))
+            out = calls[kind]()
+            ctx.count("history:call=" + kind)
+            why = judge(kind, out)
+            if why:
+                ctx.spec_fail("history", "after the calls %s: %s" % (history[:-1], why), replay(step))
+                return
+            if kind.startswith("quadrect"):
+                continue
+            arrs = [np.asarray(t) for t in out]
+            # no aliasing with the inputs or with anything returned earlier
+            for ai, arr in enumerate(arrs):
+                if arr.ndim == 0:
+                    continue
+                for inp in inputs:
+                    if np.shares_memory(arr, inp):
+                        ctx.spec_fail("history-alias", "%s returns an array sharing memory with its input" % kind, replay(step))
+                        return
+                for (st0, k0, arr0, _, _) in kept:
+                    if np.shares_memory(arr, arr0):
+                        ctx.spec_fail("history-alias", "%s (step %d) returns an array sharing memory with the one "
+                                      "returned by %s (step %d)" % (kind, step, k0, st0), replay(step, {"shares_with_step": st0}))
+                        return
+                if ai == 1 and np.shares_memory(arrs[0], arrs[1]):
+                    ctx.spec_fail("history-alias", "%s: nodes and weights share memory" % kind, replay(step))
+                    return
+            # a later identical call returns the same bits as the first one
+            sig = (kind,)
+            bits = tuple(a_.tobytes() for a_ in arrs)
+            if sig in first_result and first_result[sig] != bits:
+                ctx.spec_fail("history", "%s returns different values than its first call in the same process, after %s"
+                              % (kind, history[:-1]), replay(step))
+                return
+            first_result.setdefault(sig, bits)
+            for arr in arrs:
+                if arr.ndim:
+                    kept.append((step, kind, arr, arr.tobytes(), mutate))
+            if mutate:
+                ctx.count("history:caller-mutation")
+                for ai, arr in enumerate(arrs):
+                    if arr.ndim and arr.flags.writeable:
+                        if ai == 0:
+                            arr += 1.0
+                        else:
+                            arr *= 2.0
+        # at the end: nothing returned earlier was changed behind the caller's back
+        for (st0, k0, arr0, pristine, mutated) in kept:
+            if not mutated and arr0.tobytes() != pristine:
+                ctx.spec_fail("history", "the array returned by %s at step %d was modified by a later call (history %s)"
+                              % (k0, st0, history), replay(st0))
+                return
+        ctx.count("history:completed")
+        ctx.count("history:d=%d" % d)
+
+    for hist_id in range(ctx.n(24, 200)):
+        run_history(hist_id)
+
     # ---- 5. qnwequi, quadrect ---------------------------------------------------------------------
     class Rs(np.random.RandomState):
         pass
